@@ -28,7 +28,7 @@ type c08Case struct {
 	files2   []FSEntry
 	hasAdmin bool
 	focus    []string
-	evalQ    [][4]string // src, dst, proto, port (bare pods only)
+	evalQ    [][]string // eval command lines (worlds of bare pods only)
 }
 
 type c08Variant struct {
@@ -236,6 +236,19 @@ func (c08Checker) recheck(r *Replay, res []*Result) Verdict {
 	if len(res) != 2 {
 		return Verdict{Infra: "C08 replay needs two runs"}
 	}
+	if r.Runs[0].CLI != nil {
+		a, b := res[0], res[1]
+		dg := []string{fmt.Sprintf("exit=%d out=%s", a.Exit, sha8(a.Stdout)), fmt.Sprintf("exit=%d out=%s", b.Exit, sha8(b.Stdout))}
+		cmd := "k8snetpolicy " + strings.Join(r.Runs[0].CLI, " ")
+		if a.Exit != b.Exit {
+			return Verdict{Violated: true, Desc: fmt.Sprintf("%s: exit status %d vs %d", cmd, a.Exit, b.Exit), Digests: dg}
+		}
+		if a.Stdout != b.Stdout {
+			n, x, y := firstDiffLine(a.Stdout, b.Stdout)
+			return Verdict{Violated: true, Desc: fmt.Sprintf("%s: output differs at line %d: %q vs %q", cmd, n, x, y), Digests: dg}
+		}
+		return Verdict{Desc: "outputs identical", Digests: []string{"same"}}
+	}
 	for i, x := range res {
 		if x.Trace == nil || len(x.Trace.Events) == 0 {
 			return Verdict{Infra: fmt.Sprintf("run %d produced no trace (exit %d): %s", i, x.Exit, tail(x.Stderr, 400))}
@@ -268,6 +281,8 @@ func (c08Checker) recheck(r *Replay, res []*Result) Verdict {
 	return Verdict{Desc: "outputs identical", Digests: []string{"same"}}
 }
 
+func sha8(s string) string { return shortHash(s) }
+
 func tail(s string, n int) string {
 	if len(s) > n {
 		return s[len(s)-n:]
@@ -278,13 +293,13 @@ func tail(s string, n int) string {
 func init() { checkers["C08"] = c08Checker{} }
 
 type c08Stats struct {
-	execs, cases, variants, steps int
-	nontrivial                    map[string]bool // case digests with >= 2 distinct peer orders observed
-	peerOrders                    map[string]bool
-	byKind                        map[string]int
-	byFmt                         map[string]int
-	maxDraws                      uint64
-	samples                       []interface{}
+	execs, cases, variants, steps, evals int
+	nontrivial                           map[string]bool // case digests with >= 2 distinct peer orders observed
+	peerOrders                           map[string]bool
+	byKind                               map[string]int
+	byFmt                                map[string]int
+	maxDraws                             uint64
+	samples                              []interface{}
 }
 
 func caseDigest(c *c08Case) string {
@@ -304,6 +319,28 @@ type c08Mismatch struct {
 	base *c08Variant
 	v    *c08Variant
 	step job.Step
+	cli  []string // set for an eval query through the CLI entry point (then step is unused)
+}
+
+func (m *c08Mismatch) cmdDesc() string {
+	if m.cli != nil {
+		return "k8snetpolicy " + strings.Join(m.cli, " ")
+	}
+	return stepDesc(&m.step)
+}
+
+// resultsDiffer compares two single-command executions (node job or CLI process).
+func resultsDiffer(a, b *Result) bool {
+	if a.Trace != nil && b.Trace != nil {
+		if len(a.Trace.Events) != 1 || len(b.Trace.Events) != 1 {
+			return false
+		}
+		return eventsDiffer(&a.Trace.Events[0], &b.Trace.Events[0])
+	}
+	if a.Trace != nil || b.Trace != nil {
+		return false
+	}
+	return a.Exit != b.Exit || a.Stdout != b.Stdout
 }
 
 func eventsDiffer(a, b *job.Event) bool {
@@ -371,7 +408,21 @@ func runC08(tier string, seed uint64) int {
 		r := sub(seed, "C08", "gen", i)
 		f := drawFeatures(r)
 		w := genWorld(r, f)
+		if i%5 == 4 {
+			// eval world: bare pods, every namespace has an object, several admin policies
+			f.PodsOnly, f.AllNsObjs, f.NANPs, f.BANP = true, true, r.between(2, 4), r.chance(1, 2)
+			w = genWorld(r, f)
+		}
 		c := &c08Case{name: fmt.Sprintf("gen:%d", i), relayout: true, docs: w.Docs, docs2: editSet(r, w.Docs, &f), hasAdmin: w.HasAdmin}
+		if f.PodsOnly && len(w.Pods) >= 2 {
+			for q := 0; q < 4; q++ {
+				a, b := pick(r, w.Pods), pick(r, w.Pods)
+				an, ap := splitKey(a)
+				bn, bp := splitKey(b)
+				c.evalQ = append(c.evalQ, []string{"eval", "--dirpath", "a", "-s", ap, "-n", an, "-d", bp, "--destination-namespace", bn,
+					"-p", fmt.Sprint(pick(r, portNums)), "--protocol", strings.ToLower(string(pick(r, protos)))})
+			}
+		}
 		if len(w.Workloads) > 0 {
 			wn := pick(r, w.Workloads)
 			c.focus = []string{wn[strings.Index(wn, "/")+1:], "nosuchworkload"}
@@ -392,6 +443,7 @@ func runC08(tier string, seed uint64) int {
 		byKind  map[string]int
 		draws   uint64
 		variant []string
+		evals   int
 	}
 	outs := make([]caseOut, len(cases))
 	parallel(len(cases), workers, func(ci int) {
@@ -450,6 +502,37 @@ func runC08(tier string, seed uint64) int {
 				}
 			}
 		}
+		// eval through the CLI entry point (its directory loader inserts objects in document order)
+		if len(c.evalQ) > 0 && o.mm == nil {
+			var baseOut []string
+			for k := 0; k <= K && o.mm == nil; k += 2 {
+				rv := sub(seed, "C08", "variants", c.name)
+				var v *c08Variant
+				for kk := 0; kk <= k; kk++ {
+					v = c.variant(rv, kk) // same stream as above: variant k is the same layout and seed
+				}
+				if k == 0 {
+					v.kind = "baseline"
+				}
+				for qi, q := range c.evalQ {
+					run := c.run(v, nil, false)
+					run.Job, run.CLI, run.Seed = nil, q, v.seed
+					res := execute(&run)
+					o.execs++
+					if res.Infra != "" {
+						o.infra = res.Infra
+						return
+					}
+					d := fmt.Sprintf("%d\x00%s", res.Exit, res.Stdout)
+					if k == 0 {
+						baseOut = append(baseOut, d)
+					} else if baseOut[qi] != d && o.mm == nil {
+						o.mm = &c08Mismatch{c: c, base: base, v: v, cli: q}
+					}
+				}
+				o.evals += len(c.evalQ)
+			}
+		}
 	})
 	var mismatches []*c08Mismatch
 	for ci := range outs {
@@ -459,7 +542,8 @@ func runC08(tier string, seed uint64) int {
 		}
 		st.execs += o.execs
 		st.cases++
-		st.steps += o.steps
+		st.steps += o.steps + o.evals
+		st.evals += o.evals
 		for k, n := range o.byKind {
 			st.byKind[k] += n
 		}
@@ -484,7 +568,7 @@ func runC08(tier string, seed uint64) int {
 		}
 		rep := c08Minimise(mm, seed)
 		if rep == nil {
-			infra("C08: mismatch in %s (%s, %s) did not reproduce during minimisation", mm.c.name, mm.v.kind, stepDesc(&mm.step))
+			infra("C08: mismatch in %s (%s, %s) did not reproduce during minimisation", mm.c.name, mm.v.kind, mm.cmdDesc())
 		}
 		if ok, why := confirm(rep, 3); !ok {
 			infra("C08: witness for %s does not replay: %s", mm.c.name, why)
@@ -493,6 +577,7 @@ func runC08(tier string, seed uint64) int {
 			reported++
 		}
 	}
+	canaryHits := rp.canaries()
 	// evidence
 	for i := 0; i < len(cases) && len(st.samples) < 3; i += 1 + len(cases)/3 {
 		c := cases[i]
@@ -510,19 +595,21 @@ func runC08(tier string, seed uint64) int {
 			"distinct_nontrivial": len(st.nontrivial),
 			"rule": "one evaluation = one OS process running every command (list x 5 formats x exposure, focus, ResourceInfos API, diff x 4 formats x 2 directions) under one seeded map-order schedule and one file layout; " +
 				"a case (resource set) is non-trivial when at least two distinct peer orders were observed for it across its schedules, distinct by content hash of its documents",
-			"samples":                 st.samples,
-			"cases":                   st.cases,
-			"commands_compared":       st.steps,
-			"variants_by_kind":        st.byKind,
-			"distinct_peer_orders":    len(st.peerOrders),
-			"max_map_draws_per_run":   st.maxDraws,
-			"mismatching_cases":       len(mismatches),
-			"known_findings_observed": len(rp.known),
-			"runs_per_hour":           perHour(st.execs, rp.start),
-			"fault_kinds":             map[string]int{"map-order schedule change": st.byKind["schedule"], "document reorder/re-partition": st.byKind["layout"] + st.byKind["rules+layout"], "rule/peer permutation": st.byKind["rules"] + st.byKind["rules+layout"]},
-			"simulated_time":          "none: no clock, timer or deadline is reachable from the directory flows",
-			"real_components":         "all of /repo (connlist, diff, eval, parser, fsscanner, formatters), its dependencies, kernel file system, Go 1.23.5 runtime",
-			"stubbed_components":      "none; the runtime's map-randomness draws are redirected to the simulator's seeded stream",
+			"samples":                     st.samples,
+			"cases":                       st.cases,
+			"commands_compared":           st.steps,
+			"eval_cli_queries":            st.evals,
+			"variants_by_kind":            st.byKind,
+			"distinct_peer_orders":        len(st.peerOrders),
+			"max_map_draws_per_run":       st.maxDraws,
+			"mismatching_cases":           len(mismatches),
+			"known_findings_observed":     len(rp.known),
+			"canary_witnesses_reproduced": canaryHits,
+			"runs_per_hour":               perHour(st.execs, rp.start),
+			"fault_kinds":                 map[string]int{"map-order schedule change": st.byKind["schedule"], "document reorder/re-partition": st.byKind["layout"] + st.byKind["rules+layout"], "rule/peer permutation": st.byKind["rules"] + st.byKind["rules+layout"]},
+			"simulated_time":              "none: no clock, timer or deadline is reachable from the directory flows",
+			"real_components":             "all of /repo (connlist, diff, eval, parser, fsscanner, formatters), its dependencies, kernel file system, Go 1.23.5 runtime",
+			"stubbed_components":          "none; the runtime's map-randomness draws are redirected to the simulator's seeded stream",
 		},
 		Assumptions: []string{
 			"map orders explored are those of the Go 1.23 classic hash map (hash seed, start bucket, start offset drawn from the seeded stream)",
@@ -595,7 +682,7 @@ func c08Minimise(mm *c08Mismatch, seed uint64) *Replay {
 	for i := 0; i < 5; i++ {
 		seedPairs = append(seedPairs, [2]uint64{sr.u64() >> 1, sr.u64() >> 1})
 	}
-	usesB := mm.step.Kind == job.Diff
+	usesB := mm.cli == nil && mm.step.Kind == job.Diff
 	type cand struct {
 		a, b Run
 	}
@@ -631,6 +718,9 @@ func c08Minimise(mm *c08Mismatch, seed uint64) *Replay {
 					fs = append(fs, prefixFS("b", subsetFiles(c.files2, k2))...)
 				}
 			}
+			if mm.cli != nil {
+				return Run{FS: fs, CLI: mm.cli, Seed: s}
+			}
 			return Run{FS: fs, Job: &job.Job{ID: c.name + "/" + v.kind, MapSeed: s, Steps: steps, KeepOut: true}}
 		}
 		return cand{mk(mm.base, sp[0]), mk(mm.v, sp[1])}
@@ -643,10 +733,7 @@ func c08Minimise(mm *c08Mismatch, seed uint64) *Replay {
 			cd := build(keep, seedPairs[i])
 			cands[i] = cd
 			ra, rb := execute(&cd.a), execute(&cd.b)
-			if ra.Trace == nil || rb.Trace == nil || len(ra.Trace.Events) != 1 || len(rb.Trace.Events) != 1 {
-				return
-			}
-			found[i] = eventsDiffer(&ra.Trace.Events[0], &rb.Trace.Events[0])
+			found[i] = resultsDiffer(ra, rb)
 		})
 		for i, f := range found {
 			if f {
@@ -670,18 +757,25 @@ func c08Minimise(mm *c08Mismatch, seed uint64) *Replay {
 	} else {
 		// the single command does not show it under any tried schedule: keep the two original
 		// executions (all commands) as the witness; they replay exactly
+		if mm.cli != nil {
+			return nil
+		}
 		full := c08Steps(c)
 		lastGood = &cand{c.run(mm.base, full, true), c.run(mm.v, full, true)}
 	}
 	rep := &Replay{Property: "C08", Clause: "same resources, different output", Seed: seed, Scenario: c.name,
-		Runs: []Run{lastGood.a, lastGood.b}, Detail: map[string]string{"command": stepDesc(&mm.step), "variation": mm.v.kind, "documents_kept": fmt.Sprint(len(keep))}}
+		Runs: []Run{lastGood.a, lastGood.b}, Detail: map[string]string{"command": mm.cmdDesc(), "variation": mm.v.kind, "documents_kept": fmt.Sprint(len(keep))}}
 	_, v := runReplay(rep)
 	if v.Infra != "" || !v.Violated {
 		return nil
 	}
 	rep.Note = fmt.Sprintf("[%s] %s", mm.v.kind, v.Desc)
 	rep.Observed = v.Digests
-	rep.Sig = "c08:" + shortHash(stepKindSig(&mm.step)+"|"+normaliseDesc(v.Desc))
+	sk := stepKindSig(&mm.step)
+	if mm.cli != nil {
+		sk = "eval"
+	}
+	rep.Sig = "c08:" + shortHash(sk+"|"+normaliseDesc(v.Desc))
 	return rep
 }
 
